@@ -22,7 +22,9 @@ func (x *Exec) lockOp(st *State, recv Value, op string, in ssa.Instruction) {
 	case "Lock", "RLock":
 		x.obligeProps(st, "lock", name+"/not-held", BoolC(c.Held == "none"), "lock is not already held by this call (no self-deadlock)", []string{"C19"})
 		st.acq++
-		x.obligeProps(st, "lock", name+"/single-acquisition", BoolC(st.acq <= 1), "each registry operation is one critical section (at most one acquisition)", []string{"C19"})
+		if !x.noAcqLimit {
+			x.obligeProps(st, "lock", name+"/single-acquisition", BoolC(st.acq <= 1), "each registry operation is one critical section (at most one acquisition)", []string{"C19"})
+		}
 		if op == "Lock" {
 			c.Held = "W"
 		} else {
